@@ -476,6 +476,28 @@ def run_c07(chk):
                 mfail.append((t, "(%s)|(%s)" % (e, e), "A|A differs from A", fa[j + half] + " / " + s_))
             elif s_ != y:
                 tdis.append((t, e, s_, y))
+    # node-sets on EDITED documents (split text nodes, moved subtrees, new attributes): document order is the order of the
+    # tree as it is now - the order keys along the walk and the node-sets of a query battery, against a fresh parse
+    from gen import domgen as D
+    from props import domchecks as DC
+    ecases = DC.histories(rng, 300 if thorough else 100, 8, 0.1)
+    for t_, ops_ in ecases:
+        # splitting a text node that is not the last child, then querying at once
+        ops_.insert(rng.randrange(len(ops_) + 1), "st:h%d:1" % rng.randint(1, 9))
+    eimpl = lib.run_lines(lib.build_harness(), [lib.req("dom", t_, DC.QUERIES + ";//node()[not(self::text())];(//*|//comment())[last()]", *ops_)
+                                                 for t_, ops_ in ecases], timeout=900, per_line_resume=True)
+    for (t_, ops_), a in zip(ecases, eimpl):
+        for i, x in enumerate(D.split_records(a)):
+            chk.count(["edited", t_] + ops_[:i], nontrivial=i > 0 and x["status"].startswith("ok"))
+            v, q = x["flags"].get("ord"), x["flags"].get("q")
+            if v is not None and v != "ok":
+                mfail.append((t_, "dom history: " + " ".join(ops_[:i]), "document-order keys of the edited document are not increasing "
+                              "along the tree walk (node-sets come out of order or lose nodes)", v))
+                break
+            if q is not None and q not in ("ok", "skip") and "SIDE-EFFECT" not in q:
+                mfail.append((t_, "dom history: " + " ".join(ops_[:i]), "a node-set on the edited document differs from the same on a "
+                              "fresh parse of its serialization", q[:600]))
+                break
     # node-sets of DIFFERENT node kinds united: commutative, and nothing is lost - count(A|B) = count(A) + count(B) when the
     # kinds differ (an element and its own namespace or attribute nodes are distinct nodes)
     KSETS = [("//*", "e"), ("//@*", "a"), ("//namespace::*", "n"), ("//text()", "t"), ("//comment()", "c"), ("/*", "e"),
